@@ -354,6 +354,9 @@ def run_case(idx, rng, tier, ctx):
             continue
         ok, why = diffexec.syntax_check(ctx['scratch'] / f'o{idx}', [('o.F90', onew)])
         shutil.rmtree(ctx['scratch'] / f'o{idx}', ignore_errors=True)
+        if not ok and 'TIMEOUT' in why:
+            res['inconclusive'] = 'compiler timeout'
+            return res
         if not ok:
             bad_open = True
             viol.append({'key': f'sanitize:open:regenerated-rejected-by-compiler:{lay}', 'msg': why[-300:],
